@@ -282,6 +282,20 @@ class Interp:
                     continue
                 v['status'] = 'waiting'
                 return
+            if k == 'awaitfor':
+                # await the event inside until(time + d): the wait is abandoned after d (the abandoned event stays unhandled)
+                if v.get('gaveup') == v['pc']:
+                    v['obs'].append((s.now, ('gaveup',)))
+                    v['pc'] += 1
+                    continue
+                key = ('e', op[1])
+                v['wait'] = key
+                if key in s.fired:
+                    v['status'] = 'ready'
+                    continue
+                s.timers.append([s.now + op[2], ('ng', n, v['pc']), True, None])
+                v['status'] = 'waiting'
+                return
             raise ValueError(op)
 
     # -- transition relation ----------------------------------------------------------------------------------
@@ -352,6 +366,12 @@ class Interp:
                     v = c.nat[t[1][1]]
                     v['slept'] = v['pc']
                     v['status'] = 'new'
+                elif t[1][0] == 'ng':
+                    v = c.nat[t[1][1]]
+                    if v['status'] == 'waiting' and v['pc'] == t[1][2]:
+                        v['gaveup'] = v['pc']
+                        v['wait'] = None
+                        v['status'] = 'new'
                 else:
                     self.fire(c, t[1], t[2], t[3])
             elif tr[0] == 'cond':
@@ -567,6 +587,14 @@ def run_real(program):
                             nobs[name].append((time.now, ('val', v)))
                         except KeyError as e:
                             nobs[name].append((time.now, ('exc', e.args[0])))
+                    elif k == 'awaitfor':
+                        got = []
+                        try:
+                            async with usim_until(time + op[2]):
+                                got.append(('val', await events[op[1]]))
+                        except KeyError as e:
+                            got.append(('exc', e.args[0]))
+                        nobs[name].append((time.now, got[0] if got else ('gaveup',)))
 
             async def main():
                 for f in ('f0',):
@@ -697,6 +725,11 @@ def cases(tier):
                     emb['procs'] = base['procs'] + [['pk', [['timeout', 3, 'k']]]]
                     emb['natives'] = [['n0', [['await', 'e0']]], ['n1', [['sleep', 1], ['setflag', 'f0'], ['succeed', 'e1', 'nv']]]]
                     out.append(emb)
+                    if fam == 'events':
+                        # a native activity that gives up waiting for an event before it is triggered (or fails)
+                        imp = dict(emb)
+                        imp['natives'] = [['n0', [['awaitfor', 'e0', 1]]], ['n1', [['awaitfor', 'e1', 1]]]]
+                        out.append(imp)
     return out
 
 
